@@ -94,6 +94,12 @@ func (it *snapshotBatchedIter[_]) fillBatch() error {
 		it.values = it.values[:0]
 	}
 
+	if it.reverse && it.nextKey != nil && len(it.nextKey) == 0 {
+		// the previous batch ended with the empty key: nothing sorts before it, the scan is complete
+		it.pos = 0
+		return nil
+	}
+
 	var snapshotIter Iterator
 	if it.reverse {
 		searchUpper := it.upper
@@ -129,7 +135,10 @@ func (it *snapshotBatchedIter[_]) fillBatch() error {
 		keyLen := len(lastKey)
 
 		if it.reverse {
-			if cap(it.nextKey) >= keyLen {
+			if keyLen == 0 {
+				// an empty but non-nil nextKey marks the end of a reverse scan (nil means "not started")
+				it.nextKey = []byte{}
+			} else if cap(it.nextKey) >= keyLen {
 				it.nextKey = it.nextKey[:keyLen]
 			} else {
 				it.nextKey = make([]byte, keyLen)
